@@ -181,7 +181,8 @@ Print Assumptions C06_agrees_top.
 
     PARTIAL: the content before the error is a document of the CORE grammar of
     C02 ([Doc/DocGrammar.v]: text, groups, macro calls with mandatory braced
-    arguments, inline / display math, comments, paragraph breaks; [ok_doc] its
+    arguments, inline / display math ([$ $], [\( \)], [\[ \]], [$$ $$]), comments,
+    paragraph breaks; [ok_doc] its
     side conditions, [tree_of] the node list it means), written at top level;
     ALL such documents (unbounded depth and size), ALL contexts.  What follows
     the document is arbitrary. *)
@@ -189,8 +190,10 @@ From PLV Require Import Doc.DocGrammar Proofs.FaultTok Proofs.FaultDoc Proofs.Fa
 
 (** the stray closing tokens: [SBrace] = [}], [SMClose MParen] = [\)],
     [SMClose MBracket] = [\]], [SEnd x] = [\end{x}] ([x] a non-empty
-    environment name); [stray_wf] excludes [SMClose MDollar] ([$] is not a
-    closing-only token) and ill-formed names *)
+    environment name); [stray_wf] excludes [SMClose MDollar] and [SMClose
+    MDollars] ([$] and [$$] are not closing-only tokens: after a document at top
+    level they OPEN a formula, see [C05_dollars_are_not_closing_tokens]) and
+    ill-formed names *)
 
 (** ** A stray closing token after a valid document, then ANY garbage [g]:
     strict parsing fails at the token ([C05_fault_closing_partial]); tolerant
@@ -329,6 +332,24 @@ Example C06_prefix_items_nonvacuous :
   | Ok (ONode (Some (NList _ _ items))) _ =>
       firstn 5 items = settled default_ctx (d_items c06_doc) /\ length items = 7%nat
   | _ => False end.
+Proof. vm_compute. repeat split. Qed.
+
+(** a document with a display formula [$$ $$] (the fourth math kind): [a $$x$$ b]
+    followed by each stray token and the garbage *)
+Example C06_prefix_dollars_nonvacuous :
+  let d := {| d_items := [Text [] [97]; Math [32] MDollars [Text [] [120]] []; Text [32] [98]]; d_trail := [] |} in
+  ok_doc default_ctx d = true /\ unparse d = [97;32;36;36;120;36;36;32;98] /\
+  forallb (fun c =>
+    let s := unparse d ++ stray_text c ++ c06_garbage in
+    is_perr (parse_top s false default_ctx (walker_state default_ctx)) &&
+    match parse_top s true default_ctx (walker_state default_ctx) with
+    | Ok (ONode (Some nl)) p =>
+        Nat.eqb p (length (unparse d) + length (stray_text c)) &&
+        match nl, gen_nodelist 0 (fst (tree_of default_ctx (walker_state default_ctx) 0 d)) with
+        | NList _ _ items, NList _ _ items' => Nat.eqb (length items) 3 && Nat.eqb (length items') 3
+        | _, _ => false end
+    | _ => false end)
+    [SBrace; SMClose MParen; SMClose MBracket; SEnd [122;113]] = true.
 Proof. vm_compute. repeat split. Qed.
 
 Print Assumptions C06_prefix_closing_partial.
